@@ -1,4 +1,6 @@
 """C01 — transaction / header / block wire format: exact bytes, lossless round trip, clean errors."""
+import io
+
 from hypothesis import strategies as st
 
 from ..runner import Violation, unexpected, digest
@@ -145,7 +147,21 @@ def check_tx(case):
             raise Violation(what + '/fields', 'deserialised object has different field values')
         if d.serialize() != E:
             raise Violation(what + '/reserialize', 'deserialize(E).serialize() != E')
-        evals += 2
+        # the stream interface: writing appends exactly E to whatever the stream already holds; reading consumes exactly E
+        # from the current position and leaves what follows untouched
+        g = io.BytesIO()
+        g.write(b'PRE')
+        libx.call(what + '/stream_serialize', obj.stream_serialize, g)
+        if g.getvalue() != b'PRE' + E:
+            raise Violation(what + '/stream-bytes', 'stream_serialize() wrote something else than serialize() returns')
+        g = io.BytesIO(b'PRE' + E + b'\x00POST')
+        g.seek(3)
+        d2 = libx.call(what + '/stream_deserialize', cls.stream_deserialize, g)[1]
+        if g.tell() != 3 + len(E) or g.read() != b'\x00POST':
+            raise Violation(what + '/stream-position', 'stream_deserialize() did not consume exactly the %d bytes of the encoding' % len(E))
+        if type(d2) is not cls or d2.serialize() != E or not _eqmodel(libx.tx_model_of(d2), m):
+            raise Violation(what + '/stream-fields', 'stream_deserialize() returned a different object than deserialize()')
+        evals += 4
         if mutable:
             # serialisation of a mutable object follows later field assignments (serialise, edit, serialise again)
             obj.serialize()
